@@ -87,8 +87,8 @@ HARNESSES = sum([
     thorough=R2U2, desc='hashes collide in the low 8 bits: find(k) walking the 2-node chain || erase(k2) unlinking the head of that chain'),
   # chain of 3 keys 514 -> 258 -> 2 in bucket 2 (identity hash, equal low 8 bits); two erasers by key of neighbouring nodes: both take the bucket as
   # readers, one upgrade_to_writer() must release and re-acquire (OVERLAP_BUCKET witness) and re-search while the other unlinks+destroys its neighbour
-  H('era_chain3', 'era', 'era', [S([I(2), C(2), I(258), I(514)], [258], [514], KX0=2, OVERLAP_BUCKET=2, FINAL_COUNT=1),      # erase(B) || erase(A): A is B's predecessor
-                                  S([I(2), C(2), I(258), I(514)], [2], [258], KX0=514, OVERLAP_BUCKET=2, FINAL_COUNT=1)],     # erase(C) || erase(B)
+  H('era_chain3', 'era', 'era', [S([I(2), C(2), I(258), I(514)], [258], [514], KX0=2, OVERLAP_BUCKET=2),      # erase(B) || erase(A): A is B's predecessor
+                                  S([I(2), C(2), I(258), I(514)], [2], [258], KX0=514, OVERLAP_BUCKET=2)],     # erase(C) || erase(B)
     rounds=2, tiers=['thorough'], timeout=3600,
     desc='chain A->B->C in one bucket: erase(B) || erase(A), erase(C) || erase(B): contended reader->writer upgrade of the bucket lock (one upgrade_to_writer() must release and re-acquire: witness only accepted on such runs) with re-search from `search:` while the neighbour (predecessor) is unlinked and destroyed; each key erased exactly once, survivors still linked and found, every node freed once'),
   H('era_chain3_u2', 'era', 'era', [S([I(2), C(2), I(258), I(514)], [258], [514], KX0=2, OVERLAP_BUCKET=2),
